@@ -385,4 +385,14 @@ def r04_5(ctx):
     return out
 
 
-RULES = [r04_1, r04_2, r04_3, r04_4, r04_5]
+def r04_6(ctx):
+    from rules import C10
+    o = C10.r10_1(ctx)
+    o.rule = "R04.6"
+    o.text = ("no integral (area, moment, length) is served from a value cached before the figure was changed: every "
+              "lazily cached or memoised quantity is reset by each write to the state it is derived from; isometries "
+              "are exempt only for isometry-invariant quantities (same analysis as R10.1)")
+    return o
+
+
+RULES = [r04_1, r04_2, r04_3, r04_4, r04_5, r04_6]
